@@ -59,7 +59,7 @@ GROWTH_MAX = 300.0
 def plan(tier):
     if tier == "thorough":
         return {"cases": 32000, "shards": 16, "budget_s": 780}
-    return {"cases": 2800, "shards": 8, "budget_s": 75}
+    return {"cases": 2000, "shards": 8, "budget_s": 50}
 
 
 def floors(tier):
@@ -425,7 +425,8 @@ def gen_vector(P, rng, nprng, kind):
         cols = rng.sample(range(d), min(d, 1 if kind in ("eigvec", "near") else 3))
         vs = sum((1 + rng.random()) * U[:, c] for c in cols)
         if kind == "near":
-            vs = vs + 1e-6 * rnd() * np.linalg.norm(vs) / math.sqrt(d)
+            P.near_eps = rng.choice((1e-6, 1e-6, 1e-8, 1e-9))
+            vs = vs + P.near_eps * rnd() * np.linalg.norm(vs) / math.sqrt(d)
         if dt != "complex128":
             vs = np.real(vs)
     full = np.zeros(P.N, dtype="complex128" if (dt == "complex128" or np.iscomplexobj(vs)) else "float64")
@@ -433,6 +434,21 @@ def gen_vector(P, rng, nprng, kind):
     hv = vector_from_dense(P.sym, P.legs, P.n, full, dt if not np.iscomplexobj(full) or dt == "complex128" else "complex128", keep)
     vec = hv.dense().reshape(-1)[idx]
     return hv, vec
+
+
+SCALES = (1e-30, 1e-12, 1e-6, 1e6, 1e9, 1e13, 1e16, 1e30)
+
+
+def draw_scale(rng, p):
+    """Norm scale of a start vector / right-hand side: 1 with probability 1-p, else one of SCALES."""
+    return rng.choice(SCALES) if rng.random() < p else 1.0
+
+
+def scaled(hv, vec, c):
+    """(HTensor, dense sector image) multiplied by the real factor c."""
+    if c == 1.0:
+        return hv, vec
+    return hv.map_values(lambda v: v * c, hv.dtype), vec * c
 
 
 # ------------------------------------------------------------------ observation helpers
@@ -651,9 +667,17 @@ def case_expmv(ctx, P, rng, nprng):
     import yastn
     vkind = rng.choice(("random", "random", "random", "partial", "eigvec", "near", "few", "zero"))
     hv, vec = gen_vector(P, rng, nprng, vkind)
-    yv = hv.to_yastn(P.cfg)
     hflag = P.herm and rng.random() < 0.8
     t, ph = draw_t(P, rng)
+    # norm scale of the start vector (expmv is linear in v); keep growth * scale inside the range where 2-norms do not overflow
+    c = draw_scale(rng, 0.3) if vkind != "zero" else 1.0
+    if c != 1.0:
+        w_ = np.linalg.eigvalsh((t * P.M + np.conj(t * P.M).T) / 2)      # numerical range of tA along the real axis
+        if float(max(abs(w_[0]), abs(w_[-1]))) + abs(math.log(c)) > GROWTH_MAX - 10:
+            c = 1.0
+    hv, vec = scaled(hv, vec, c)
+    ctx.count("expmv:scale:%g" % c)
+    yv = hv.to_yastn(P.cfg)
     tol = rng.choice((1e-6, 1e-10, 1e-12))
     if yv.size < min(30, P.d):
         # expmv caps the Krylov dimension at min(30, v.size) = number of *stored* elements, so a start vector with few stored
@@ -665,7 +689,7 @@ def case_expmv(ctx, P, rng, nprng):
     if rng.random() < 0.06:
         t, ph = 0, "0"
     ncv = rng.choice((rng.randint(1, 30), rng.randint(1, 30), 30, 1, 2, 5, 10))
-    params = {"t": t, "tol": tol, "ncv": ncv, "hermitian": hflag, "vkind": vkind, "phase": ph}
+    params = {"t": t, "tol": tol, "ncv": ncv, "hermitian": hflag, "vkind": vkind, "phase": ph, "v_norm_scale": c}
     wit = pdesc(P, **{k: (v if not isinstance(v, complex) else [v.real, v.imag]) for k, v in params.items()})
     nontrivial = False
     if vkind == "zero":
@@ -828,13 +852,21 @@ def case_eigs(ctx, P, rng, nprng):
             ctx.count("eigs_zero_vector_rejected")
         ctx.case(("eigs-zero", psig(P)), False)
         return
-    hv, vec = gen_vector(P, rng, nprng, vkind)
-    if not np.linalg.norm(vec) > 0:
+    posdom = rng.random() < 0.3
+    if posdom:
+        # positive-dominant spectrum (all Ritz values have positive real part): 'LM' and 'SR' select opposite ends
+        add_shift(P, 1.5 * P.nrm)
+    hv1, vec1 = gen_vector(P, rng, nprng, vkind)
+    if not np.linalg.norm(vec1) > 0:
         raise CaseSkip
+    # norm scale of the start vector: eigs normalises v0, so nothing may depend on it
+    c = draw_scale(rng, 0.6 if vkind == "near" else 0.4)
+    hv, vec = scaled(hv1, vec1, c)
+    ctx.count("eigs:scale:%g" % c)
     yv = hv.to_yastn(P.cfg)
     hflag = P.herm and rng.random() < 0.8
     which = rng.choice(("SR", "LR", "LM", "SM"))
-    r, status, Q = reachable_dim(P.M, vec, P.nrm)
+    r, status, Q = reachable_dim(P.M, vec1, P.nrm)
     cands = [rng.randint(2, 30), rng.randint(2, 12), 30]
     if status == "exhausted" and r <= 27:
         cands += [r, r, r + 1, r + 1, r + 3]
@@ -856,7 +888,8 @@ def case_eigs(ctx, P, rng, nprng):
     premise, mech = breakdown_premise(P, r, status, ncv, obs)
     params = {"k": k, "which": which, "ncv": ncv, "hermitian": hflag, "vkind": vkind, "r": r, "rank_status": status,
               "observed_m": obs["m"], "observed_happy": obs["happy"], "orth_loss": obs["orth"],
-              "subdiag_tail": obs["sub"][-4:], "premise": premise}
+              "subdiag_tail": obs["sub"][-4:], "premise": premise, "v0_norm_scale": c,
+              "near_eps": getattr(P, "near_eps", None) if vkind == "near" else None, "positive_dominant": posdom}
     wit = pdesc(P, **params)
     ctx.count("eigs_calls")
     val, Y = yastn.eigs(P.f, yv, k=k, which=which, ncv=ncv, hermitian=hflag)
@@ -925,7 +958,51 @@ def case_eigs(ctx, P, rng, nprng):
     else:
         for k_, t_ in fails:
             ctx.violation(k_, t_, wit)
-    ctx.case(("eigs", psig(P), which, k, ncv, hflag, vkind, premise), True,
+    # ---- invariance under v0 -> c v0: the same call on the unit-scale vector must give the same pairs
+    if c != 1.0 and mech is None:
+        ctx.count("eigs_calls")
+        val1, Y1 = yastn.eigs(P.f, hv1.to_yastn(P.cfg), k=k, which=which, ncv=ncv, hermitian=hflag)
+        val1 = np.atleast_1d(np.asarray(val1))
+        ys1 = [observe_vector(ctx, "eigs", y_, P, wit) for y_ in Y1]
+        if len(val1) == k and all(y_ is not None for y_ in ys1):
+            ress1 = [float(np.linalg.norm(P.M @ y_ - th_ * y_) / max(np.linalg.norm(y_), 1e-300)) for th_, y_ in zip(val1, ys1)]
+            ctx.count("eigs_scale_invariance_checked")
+            if vkind == "near":
+                ctx.count("eigs_scale_invariance_checked:near-invariant")
+            unit = max(1.0, P.nrm)
+            dv = float(np.max(np.abs(val - val1)))
+            if not hflag and np.isrealobj(P.M) and np.isrealobj(vec1):
+                # real non-symmetric map: Ritz values come in conjugate pairs, which tie in every `which` criterion
+                dv = float(np.max(np.minimum(np.abs(val - val1), np.abs(val - np.conj(val1)))))
+            lo = min(min(ress), min(ress1))
+            ok_v = ctx.margin("eigs:scale-invariance:values", dv, 1e-10 * unit + 1e-6 * lo)
+            dr = max(abs(a_ - b_) for a_, b_ in zip(ress, ress1))
+            ok_r = ctx.margin("eigs:scale-invariance:residuals", dr, 1e-10 * unit + 0.1 * lo)
+            if not (ok_v and ok_r):
+                ctx.violation("value:eigs:depends-on-norm-of-v0" + (":near-invariant-start" if vkind == "near" else ""),
+                              f"eigs(f, c*v0) != eigs(f, v0) for c={c:g} (which={which}, k={k}, ncv={ncv}, hermitian={hflag}, start={vkind}): "
+                              f"values {val.tolist()} vs {val1.tolist()} (|diff|={dv:.3e}), residuals {ress} vs {ress1} (||A||={P.nrm:.3g})",
+                              dict(wit, values_scaled=[complex(x) for x in val], values_unit=[complex(x) for x in val1],
+                                   residuals_scaled=ress, residuals_unit=ress1))
+    # ---- documented default: eigs(f, v0, k=1, which='SR', ...) -- calling without `which` is calling with 'SR'
+    if posdom and mech is None:
+        ctx.count("eigs_calls", 2)
+        vd, Yd = yastn.eigs(P.f, yv, k=k, ncv=ncv, hermitian=hflag)
+        vs, Ys = yastn.eigs(P.f, yv, k=k, which="SR", ncv=ncv, hermitian=hflag)
+        vd, vs = np.atleast_1d(np.asarray(vd)), np.atleast_1d(np.asarray(vs))
+        ctx.count("eigs_default_which_checked")
+        if P.herm and obs["m"] >= 2:
+            ctx.count("eigs_default_which_discriminating")     # Hermitian, >= 2 distinct positive Ritz values: LM != SR
+        same = vd.shape == vs.shape and np.allclose(vd, vs, rtol=0, atol=1e-12 * max(1.0, P.nrm))
+        if same:
+            for a_, b_ in zip(Yd, Ys):
+                ya, yb_ = observe_vector(ctx, "eigs", a_, P, wit), observe_vector(ctx, "eigs", b_, P, wit)
+                same = same and ya is not None and yb_ is not None and np.allclose(ya, yb_, rtol=0, atol=1e-10)
+        if not same:
+            ctx.violation("eigs:default-which-is-not-SR",
+                          f"eigs without `which` returned {vd.tolist()} but which='SR' (the documented default) returns {vs.tolist()} "
+                          f"(k={k}, ncv={ncv}, hermitian={hflag}, positive-dominant spectrum, ||A||={P.nrm:.3g})", wit)
+    ctx.case(("eigs", psig(P), which, k, ncv, hflag, vkind, premise, c, posdom), True,
              pdesc(P, **dict(params, values=[complex(x) for x in val], residuals=ress)))
 
 
@@ -940,6 +1017,12 @@ def case_lin(ctx, P, rng, nprng):
         raise CaseSkip
     v0kind = rng.choice(("zero", "zero", "random"))
     h0, v0vec = gen_vector(P, rng, nprng, v0kind)
+    # norm scale of the problem: the solution is linear in (b, v0), the returned residual is the true one at every scale
+    c = draw_scale(rng, 0.4)
+    hb1, bvec1, h01, v0vec1 = hb, bvec, h0, v0vec
+    hb, bvec = scaled(hb, bvec, c)
+    h0, v0vec = scaled(h0, v0vec, c)
+    ctx.count("lin_solver:scale:%g" % c)
     yb, y0 = hb.to_yastn(P.cfg), h0.to_yastn(P.cfg)
     if "complex" in str(yb.yastn_dtype) and "complex" not in str(y0.yastn_dtype):
         y0 = y0.to(dtype="complex128")
@@ -963,7 +1046,7 @@ def case_lin(ctx, P, rng, nprng):
         ctx.count("lin_solver_happy_breakdowns")
     premise, mech = breakdown_premise(P, r, status, ncv, obs)
     params = {"ncv": ncv, "tol": tol, "hermitian": hflag, "v0": v0kind, "cond": cond, "r": r, "rank_status": status,
-              "observed_m": obs["m"], "observed_happy": obs["happy"], "premise": premise}
+              "observed_m": obs["m"], "observed_happy": obs["happy"], "premise": premise, "norm_scale": c}
     wit = pdesc(P, **params)
     ctx.count("lin_solver_calls")
     x, res = yastn.lin_solver(P.f, yb, y0, ncv=ncv, tol=tol, pinv_tol=1e-13, hermitian=hflag)
@@ -971,7 +1054,28 @@ def case_lin(ctx, P, rng, nprng):
     if xv is None:
         return
     judge_lin(ctx, P, xv, res, bvec, cond, premise, mech, wit)
-    ctx.case(("lin_solver", psig(P), ncv, tol, hflag, v0kind, premise, P.shift != 0), True, wit)
+    if c != 1.0 and mech is None:
+        # linearity: lin_solver(f, c b, c v0) == c * lin_solver(f, b, v0)
+        y01 = h01.to_yastn(P.cfg)
+        yb1 = hb1.to_yastn(P.cfg)
+        if "complex" in str(yb1.yastn_dtype) and "complex" not in str(y01.yastn_dtype):
+            y01 = y01.to(dtype="complex128")
+        ctx.count("lin_solver_calls")
+        x1, res1 = yastn.lin_solver(P.f, yb1, y01, ncv=ncv, tol=tol, pinv_tol=1e-13, hermitian=hflag)
+        xv1 = observe_vector(ctx, "lin_solver", x1, P, wit)
+        if xv1 is not None:
+            ctx.count("lin_solver_linearity_checked")
+            nx = max(float(np.linalg.norm(xv1)), 1e-300)
+            dx = float(np.linalg.norm(xv / c - xv1)) / nx
+            scale1 = P.nrm * nx + float(np.linalg.norm(bvec1))
+            dres = abs(float(res) / c - float(res1))
+            ok_x = ctx.margin("lin_solver:linearity:x/(1e-9*cond)", dx, 1e-9 * cond + 1e-10)
+            ok_r = ctx.margin("lin_solver:linearity:res", dres, 1e-10 * scale1 + 1e-6 * float(res1))
+            if not (ok_x and ok_r):
+                ctx.violation("value:lin_solver:not-linear-in-rhs",
+                              f"lin_solver(f, c*b, c*v0) != c*lin_solver(f, b, v0) for c={c:g}: ||x_c/c - x||/||x|| = {dx:.3e}, "
+                              f"res_c/c = {float(res) / c:.6e} vs res = {float(res1):.6e} (cond={cond:.2e}, ncv={ncv})", wit)
+    ctx.case(("lin_solver", psig(P), ncv, tol, hflag, v0kind, premise, P.shift != 0, c), True, wit)
 
 
 def judge_lin(ctx, P, xv, res, bvec, cond, premise, mech, wit):
